@@ -1183,3 +1183,119 @@ Proof.
 Qed.
 
 End Exported.
+
+(* ================================================================== *)
+(* zkpGenerator.UnblindInputs over a history of calls on one generator instance *)
+Section History.
+Context {G C : Type} (P : prims G C) (pk : bytes -> option bytes) (L : laws P pk).
+
+(* a generator has no memory: the k-th answer is the pure function of the k-th packet *)
+Theorem gen_run_pointwise : forall st h,
+  gen_run P st h = (st, map (fun p => unblind_inputs P st (fst p) (snd p)) h).
+Proof.
+  intros st h. induction h as [|p r IH]; cbn [gen_run map]; [reflexivity|].
+  unfold gen_step. rewrite IH. reflexivity.
+Qed.
+
+Theorem gen_after_history : forall st h p,
+  snd (gen_step P (fst (gen_run P st h)) p) = unblind_inputs P st (fst p) (snd p).
+Proof. intros st h p. rewrite gen_run_pointwise. reflexivity. Qed.
+
+Lemma try_keys_all_fail : forall ks o,
+  (forall k, unblind_with_key P o k = UErr) -> try_keys P ks o = UErr.
+Proof.
+  intros ks o Hall. induction ks as [|k r IH]; cbn [try_keys]; [reflexivity|].
+  rewrite Hall. exact IH.
+Qed.
+
+Lemma try_keys_first_ok : forall pre k post o u,
+  (forall k', In k' pre -> unblind_with_key P o k' = UErr) ->
+  unblind_with_key P o k = UOk u -> try_keys P (pre ++ k :: post) o = UOk u.
+Proof.
+  intros pre k post o u Hpre Hk. induction pre as [|k' r IH]; cbn [try_keys app].
+  - rewrite Hk. reflexivity.
+  - rewrite (Hpre k' (or_introl eq_refl)). apply IH. intros k2 Hin. apply Hpre. right. exact Hin.
+Qed.
+
+Variables (value : N) (asset abf vbf script rsk esk R E : bytes) (exp mb : Z) (bl : ub_blinded).
+Hypothesis B : blinded_for P pk value asset abf vbf script rsk esk R E exp mb bl.
+
+(* generator keys under which the recipient's key is the one that is reached *)
+Definition reaches (gk : gen_keys) (scr key : bytes) : Prop :=
+  match gk with
+  | GKeys ks => exists pre post, ks = pre ++ key :: post /\ ~ In key pre
+  | GMaster d => d scr = key
+  end.
+
+Lemma one_input_packet : forall gk o idxs,
+  idxs = [] \/ idxs = [0] ->
+  unblind_inputs P gk [o] idxs =
+    match gen_unblind_output P gk o with
+    | UOk u => UOk [mk_owned 0 (u_value u) (u_asset u) (u_vbf u) (u_abf u)]
+    | UErr => UErr
+    | UPanic => UPanic
+    end.
+Proof.
+  intros gk o idxs [Hi|Hi]; subst idxs; unfold unblind_inputs; cbn;
+    destruct (gen_unblind_output P gk o); reflexivity.
+Qed.
+
+(* after ANY history of calls, a packet whose prevout is the honestly blinded output is
+   unblinded to exactly what was blinded *)
+Theorem history_then_honest : forall gk h sp idxs,
+  reaches gk script rsk -> idxs = [] \/ idxs = [0] ->
+  snd (gen_step P (fst (gen_run P gk h)) ([out_of_blinded bl script E sp], idxs)) =
+    UOk [mk_owned 0 value asset vbf abf].
+Proof.
+  intros gk h sp idxs Hr Hi. rewrite gen_after_history. cbn [fst snd].
+  rewrite (one_input_packet gk _ idxs Hi).
+  assert (Hc : is_conf_out (out_of_blinded bl script E sp) = true).
+  { destruct B as (_ & _ & _ & _ & HE & _). unfold is_conf_out, out_of_blinded. cbn [o_nonce].
+    pose proof (law_pk_conf P pk L _ _ HE). apply Nat.ltb_lt. lia. }
+  unfold gen_unblind_output. rewrite Hc. cbn [negb].
+  assert (Hok : try_keys P (keys_for gk (out_of_blinded bl script E sp)) (out_of_blinded bl script E sp)
+                = UOk (mk_unb value asset vbf abf)).
+  { destruct gk as [ks|d]; cbn [keys_for reaches] in *.
+    - destruct Hr as (pre & post & -> & Hnin). apply try_keys_first_ok.
+      + intros k' Hin. apply (x_wrong_key_fails P pk L _ _ _ _ _ _ _ _ _ _ _ _ B).
+        intro Heq. subst k'. exact (Hnin Hin).
+      + apply (x_unblind_blind_key P pk L _ _ _ _ _ _ _ _ _ _ _ _ B).
+    - unfold out_of_blinded at 1. cbn [o_script]. rewrite Hr. cbn [try_keys].
+      rewrite (x_unblind_blind_key P pk L _ _ _ _ _ _ _ _ _ _ _ _ B). reflexivity. }
+  rewrite Hok. reflexivity.
+Qed.
+
+(* after ANY history (in particular after the honest prevout was unblinded for the same
+   outpoint), a packet whose prevout has an altered script / value commitment fails, for every
+   kind of generator keys *)
+Theorem history_then_tampered_script : forall gk h script' sp idxs,
+  script' <> script -> idxs = [] \/ idxs = [0] ->
+  snd (gen_step P (fst (gen_run P gk h))
+         ([mk_out (bl_asset bl) (bl_value bl) script' E (bl_proof bl) sp], idxs)) = UErr.
+Proof.
+  intros gk h script' sp idxs Hne Hi. rewrite gen_after_history. cbn [fst snd].
+  rewrite (one_input_packet gk _ idxs Hi).
+  assert (Hc : is_conf_out (mk_out (bl_asset bl) (bl_value bl) script' E (bl_proof bl) sp) = true).
+  { destruct B as (_ & _ & _ & _ & HE & _). unfold is_conf_out. cbn [o_nonce].
+    pose proof (law_pk_conf P pk L _ _ HE). apply Nat.ltb_lt. lia. }
+  unfold gen_unblind_output. rewrite Hc. cbn [negb].
+  rewrite try_keys_all_fail; [reflexivity|].
+  intro k. exact (proj1 (x_tampered_script_fails P pk L _ _ _ _ _ _ _ _ _ _ _ _ B script' sp k [] Hne)).
+Qed.
+
+Theorem history_then_tampered_value_commitment : forall gk h vc' sp idxs,
+  vc' <> bl_value bl -> idxs = [] \/ idxs = [0] ->
+  snd (gen_step P (fst (gen_run P gk h))
+         ([mk_out (bl_asset bl) vc' script E (bl_proof bl) sp], idxs)) = UErr.
+Proof.
+  intros gk h vc' sp idxs Hne Hi. rewrite gen_after_history. cbn [fst snd].
+  rewrite (one_input_packet gk _ idxs Hi).
+  assert (Hc : is_conf_out (mk_out (bl_asset bl) vc' script E (bl_proof bl) sp) = true).
+  { destruct B as (_ & _ & _ & _ & HE & _). unfold is_conf_out. cbn [o_nonce].
+    pose proof (law_pk_conf P pk L _ _ HE). apply Nat.ltb_lt. lia. }
+  unfold gen_unblind_output. rewrite Hc. cbn [negb].
+  rewrite try_keys_all_fail; [reflexivity|].
+  intro k. exact (proj1 (x_tampered_value_commitment_fails P pk L _ _ _ _ _ _ _ _ _ _ _ _ B vc' sp k [] Hne)).
+Qed.
+
+End History.
